@@ -235,7 +235,9 @@ func runMerge(args []string) error {
 	}
 
 	for ci, c := range in.Cases {
-		base := filepath.Join(in.Dir, fmt.Sprintf("m%d", ci))
+		// the lists are built in the same two directories over and over (removed after each case)
+		base := filepath.Join(in.Dir, fmt.Sprintf("m%d", ci%2))
+		os.RemoveAll(base)
 		tr.emit(M{"t": "reset", "case": ci})
 		cmp = skiplist.BytesComparator{}
 		if c.Cmp == "nocase" {
@@ -346,8 +348,17 @@ func runMerge(args []string) error {
 				members = append(append(append([]sstables.SSTableReaderI{}, members[:at]...), sstables.EmptySStableReader{}), members[at:]...)
 			}
 			sup := sstables.NewSuperSSTableReader(members, cmp)
+			// lookup keys travel in ONE buffer that is refilled for the next call
+			var probeBuf []byte
+			inBuf := func(k []byte) []byte {
+				for i := range probeBuf {
+					probeBuf[i] = 0xEE
+				}
+				probeBuf = append(probeBuf[:0], k...)
+				return probeBuf[:len(k):len(k)]
+			}
 			for _, p := range c.Probes {
-				ok, err := sup.Contains(keys[p])
+				ok, err := sup.Contains(inBuf(keys[p]))
 				r := fmt.Sprint(ok)
 				if err != nil {
 					r = "err:" + err.Error()
@@ -355,7 +366,7 @@ func runMerge(args []string) error {
 				if c.Cmp != "nocase" { // the bloom filter hashes bytes: under a comparator that identifies different byte strings Contains is not comparable
 					tr.emit(M{"t": "contains", "k": p, "r": r})
 				}
-				v, err := sup.Get(keys[p])
+				v, err := sup.Get(inBuf(keys[p]))
 				switch {
 				case errors.Is(err, sstables.NotFound):
 					tr.emit(M{"t": "get", "k": p, "r": "NotFound"})
@@ -364,7 +375,7 @@ func runMerge(args []string) error {
 				default:
 					tr.emit(M{"t": "get", "k": p, "r": vt(v)})
 				}
-				out, e := drain(sup.ScanStartingAt(keys[p]))
+				out, e := drain(sup.ScanStartingAt(inBuf(keys[p])))
 				tr.emit(M{"t": "scanfrom", "k": p, "out": out, "err": e})
 			}
 			out, e := drain(sup.Scan())
